@@ -72,6 +72,15 @@ func pvPrograms() []pvProgram {
 			}
 			return l
 		}})
+	// the DocumentN variables are the documents of THIS evaluation
+	out = append(out, pvProgram{"Document1 | .Individuals | .Pointer",
+		func(d *gedcom.Document) interface{} { return ptrsIf(d, func(*gedcom.IndividualNode) bool { return true }) }})
+	out = append(out, pvProgram{"D is Document1; D | .Families | Length",
+		func(d *gedcom.Document) interface{} { return len(d.Families()) }})
+	out = append(out, pvProgram{"Document1 | .Individuals | Only(.Pointer != \"I1\") | Length",
+		func(d *gedcom.Document) interface{} {
+			return len(ptrsIf(d, func(i *gedcom.IndividualNode) bool { return i.Pointer() != "I1" }).([]interface{}))
+		}})
 	out = append(out, pvProgram{"All is .Individuals | .Pointer; All",
 		func(d *gedcom.Document) interface{} {
 			return ptrsIf(d, func(*gedcom.IndividualNode) bool { return true })
